@@ -228,6 +228,32 @@ def polytope_forms():
                 ("Cuboid(k*a, b, c, d)", lambda: Cuboid(_pt(o, _k(v)), *pts[1:]))]
 
     out.append(("Cuboid", (3,), cub))
+
+    def quad(v, d):
+        # a simple quadrilateral that is no parallelogram in general (trapezoids, kites, darts): (0,0), (a,0), (b,c), (0,e) moved by o; in
+        # 3-space lifted to the plane z = alpha x + beta y + gamma
+        a, b, c, e = abs(v[2]) + 2.0, abs(v[3]) + 1.0, abs(v[4]) + 1.0, abs(v[5]) + 1.0
+        o = np.array(v[:2], float)
+        P2 = [o, o + [a, 0], o + [b, c], o + [0, e]]
+        for i in range(4):
+            x, y, z = P2[i], P2[(i + 1) % 4], P2[(i + 2) % 4]
+            if (y[0] - x[0]) * (z[1] - y[1]) - (y[1] - x[1]) * (z[0] - y[0]) == 0:
+                raise Skip("three consecutive vertices on a line")
+        lift = (lambda p: list(p)) if d == 2 else (lambda p: [p[0], p[1], v[6] % 3 * p[0] - v[7] % 2 * p[1] + v[8]])
+        pts = [_pt([float(x) for x in lift(p)]) for p in P2]
+        other = [_pt([float(x) for x in lift(p + [7.0, 1.0])]) for p in P2]
+        from geometer import PolygonCollection
+
+        forms = [("Polygon(a, b, c, d)", lambda: Polygon(*pts)), ("PolygonCollection([g, h])[0]", lambda: PolygonCollection([Polygon(*pts), Polygon(*other)])[0]),
+                 ("list(PolygonCollection([h, g]))[1]", lambda: list(PolygonCollection([Polygon(*other), Polygon(*pts)]))[1]), ("Polygon(b, c, d, a)", lambda: Polygon(pts[1], pts[2], pts[3], pts[0])),
+                 ("PolygonCollection(array)[1]", lambda: PolygonCollection(np.stack([np.stack([p.array for p in other]), np.stack([p.array for p in pts])]))[1])]
+        if d == 3:
+            from geometer.shapes import Polyhedron
+
+            forms.append(("Polyhedron(h, g).faces[1]", lambda: Polyhedron(Polygon(*other), Polygon(*pts)).faces[1]))
+        return forms
+
+    out.append(("Quadrilateral", (2, 3), quad))
     return out
 
 
@@ -263,6 +289,7 @@ def run_forms(pid):
         forms = build([int(x) for x in c["v"]], c["d"])
         ck = Checker()
         base_name, base = None, None
+        probe_cache = {}
         for fname, f in forms:
             o, fail = call(f"forms:{c['entry']}:{fname}", f)
             if fail:
@@ -288,6 +315,25 @@ def run_forms(pid):
                         x, fx = call(site + ":" + attr, lambda: (getattr(o, attr), getattr(base, attr)))
                         if fx is None:
                             ck.check(np.allclose(x[0], x[1], rtol=1e-9, atol=1e-9), site + ":" + attr, (np.asarray(x[0]).tolist(), np.asarray(x[1]).tolist()))
+                if hasattr(o, "centroid") and hasattr(base, "centroid"):
+                    x, fx = call(site + ":centroid", lambda: (o.centroid, base.centroid))
+                    if fx is None:
+                        ck.check(C.peq_all(np.asarray(x[0].array), np.asarray(x[1].array), 1, 1e-9), site + ":centroid", (np.asarray(x[0].array).tolist(), np.asarray(x[1].array).tolist()))
+                if isinstance(o, G.shapes.PolygonTensor) and a.ndim == 2 and b.shape == a.shape:
+                    # membership of and distance from some points of the plane of the polygon (affine combinations of its vertices)
+                    nv = a.shape[0]
+                    W = [[1.0 / nv] * nv, [0.7] + [0.3 / (nv - 1)] * (nv - 1), [-0.3, 0.65, 0.65] + [0.0] * (nv - 3), [0.05] * (nv - 1) + [1 - 0.05 * (nv - 1)]]
+                    va = np.array([C.pnorm(r).real for r in b])
+                    for wts in W:
+                        q = Point(np.asarray(wts) @ va)
+                        key = (id(base), tuple(wts))
+                        if key not in probe_cache:
+                            probe_cache[key] = call(site + ":contains/dist", lambda: (base.contains(q), G.dist(base, q)))
+                        y, fy = probe_cache[key]
+                        x, fx = call(site + ":contains/dist", lambda: (o.contains(q), G.dist(o, q)))
+                        if fx is None and fy is None:
+                            ck.check(bool(x[0]) == bool(y[0]), site + ":contains", (wts, bool(x[0]), bool(y[0])))
+                            ck.check(np.allclose(x[1], y[1], rtol=1e-9, atol=1e-9), site + ":dist", (wts, float(x[1]), float(y[1])))
             else:
                 ck.check(a.shape == b.shape and C.peq_all(a.astype(complex), b.astype(complex), a.ndim, 1e-9), site + ":same-matrix", C.short((a.tolist(), b.tolist())))
         return ck.result()
@@ -377,6 +423,7 @@ def run_call_forms(pid):
             raise Skip("pool entry missing")
         ck = Checker()
         base_name, base = None, None
+        probe_cache = {}
         for fname, f in forms:
             try:
                 o, fail = call(f"call-forms:{c['entry']}:{fname}", f)
